@@ -125,6 +125,7 @@ def run_case(case, work, rec):
                           witness={"mutations": muts, "exc": repr(e)[:300]})
             return
         consumed = False
+        exps = {}       # (level, box) -> the located FAB as an array of all fields (None when the counts differ)
         for lv in range(L + 1):
             ldir = inf["levels"][lv]["dir"].replace(path, dst)
             try:
@@ -150,6 +151,7 @@ def run_case(case, work, rec):
                     return
                 pay, nc = loc
                 shape = [b - a + 1 for a, b in zip(lo, hi)]
+                exps[(lv, bi)] = np.frombuffer(pay, "<f8").reshape(shape + [nc], order="F") if nc == nf else None
                 for fd, fsel in (("[:]", slice(None)), (f"[{nf - 1}]", nf - 1)):
                     got = reads[fd]
                     if nc != nf:
@@ -164,6 +166,31 @@ def run_case(case, work, rec):
                                                "got_shape": str(getattr(got, "shape", None)),
                                                "declared": shape + [nf], "fab_ncomp": nc})
                         return
+        # (3) the same boxes through a list selection: in the order requested, repeats included
+        for lv in range(L + 1):
+            have = sorted(b for (l, b) in exps if l == lv)
+            if len(have) < 2:
+                continue
+            want = rng.sample(have, min(len(have), 4))
+            want = want + [want[0]]
+            if want == sorted(want):
+                want.reverse()
+            try:
+                got = pck[nf - 1][lv][list(want)]
+            except Exception as e:
+                rec.violation(f"validation accepted but reading raised {type(e).__name__}: {descr}", key=key,
+                              witness={"mutations": muts, "level": lv, "boxes": want, "exc": repr(e)[:300]})
+                return
+            rec.count("list_selections_read")
+            ok = isinstance(got, (list, tuple)) and len(got) == len(want) and all(
+                isinstance(g, np.ndarray) and exps[(lv, b)] is not None and refparse.biteq(g, exps[(lv, b)][..., nf - 1])
+                for g, b in zip(got, want))
+            if not ok:
+                rec.violation(f"validation accepted but the boxes read through a list selection are not the FABs "
+                              f"that name their index ranges, in the order requested: {descr}", key=key,
+                              witness={"mutations": muts, "level": lv, "boxes": want,
+                                       "returned": len(got) if isinstance(got, (list, tuple)) else type(got).__name__})
+                return
         rec.count("accepted_and_read")
         for kd, mu in zip(kinds, muts):
             if kd == "tol":
